@@ -13,7 +13,7 @@ from b2_common import line, fcanon, bits
 ID = 'C12'
 LEAN_MODULE = 'Proofs.C12'
 THEOREMS = ['Fsic.C12.' + n for n in [
-    'reindex_spec', 'first_occurrence', 'fill_default_table', 'default_by_kind', 'reflected_branches',
+    'reindex_spec', 'reindex_label_read', 'reindex_new_label_read', 'first_occurrence', 'fill_default_table', 'default_by_kind', 'reflected_branches',
     'reflected_property_defaults', 'fill_precedence', 'model_defaults',
     'reindex_preserves_meta', 'coerce_ne_keyError', 'reindex_strict_unknown', 'effective_strict', 'reindex_succeeds',
     'reindexWith_spec', 'reindex_kind_eq_list', 'reindex_lookup_error', 'reindex_spec_all', 'reindex_succeeds_all',
